@@ -28,14 +28,26 @@ import (
 //	"forward"  Limiter(q): both outputs -> end (a refused request is forwarded anyway)
 //	"two"      Limiter(q): above_limit -> GenerateResponse(429); below_limit -> Limiter(q2):
 //	           above_limit -> GenerateResponse(429); below_limit -> end   (q2 unrelated to q)
+//	"chain"    every quota on ONE host; Limiter(Chain[0]) -> below_limit -> Limiter(Chain[1]) -> ... ->
+//	           Filter(header x-mode=early): hit -> GenerateResponse(200) (answered early AFTER
+//	           admission, per request), miss -> end; above_limit of every limiter ->
+//	           GenerateResponse(429), or -> end when OnRefusal == "forward".  Chain entries
+//	           are concurrency quotas (rows) and rate quotas (fixed window, never reached) in
+//	           any order; quotas outside the chains of its entries are referenced by no flow
+//	           (their system-flow QuotaProcessorInc applies its logic, before the user flow).
 type EngCfg struct {
 	Cfg
-	Limiter  int    `json:"limiter_quota"`
-	Limiter2 int    `json:"second_limiter_quota"` // -1: none
-	Style    string `json:"flow_style"`
+	Limiter   int    `json:"limiter_quota"`
+	Limiter2  int    `json:"second_limiter_quota"` // -1: none
+	Style     string `json:"flow_style"`
+	Chain     []int  `json:"limiter_chain,omitempty"`
+	OnRefusal string `json:"on_refusal,omitempty"` // chain: "429" | "forward"
 }
 
 func (e *EngCfg) flowYAML() string {
+	if e.Style == "chain" {
+		return e.chainYAML()
+	}
 	lim := fmt.Sprintf("lim%d", e.Limiter)
 	var sb strings.Builder
 	fmt.Fprintf(&sb, "name: f\nfilter:\n  url: \"%s/*\"\nprocessors:\n", e.host(e.Limiter))
@@ -99,16 +111,81 @@ func (e *EngCfg) flowYAML() string {
 	return sb.String()
 }
 
+func (e *EngCfg) chainYAML() string {
+	var sb strings.Builder
+	fmt.Fprintf(&sb, "name: f\nfilter:\n  url: \"%s/*\"\nprocessors:\n", e.host(0))
+	for _, q := range e.Chain {
+		fmt.Fprintf(&sb, "  lim%d:\n    processor: Limiter\n    parameters:\n      - key: quota_id\n        value: %s\n", q, qid(q))
+	}
+	sb.WriteString("  flt:\n    processor: Filter\n    parameters:\n      - key: header\n        value: x-mode=early\n")
+	gen := func(name string, status int) {
+		fmt.Fprintf(&sb, "  %s:\n    processor: GenerateResponse\n    parameters:\n      - key: status\n        value: %d\n", name, status)
+	}
+	if e.OnRefusal != "forward" {
+		gen("gen429", 429)
+	}
+	gen("gen200", 200)
+	sb.WriteString("flow:\n  request:\n")
+	conn := func(from, cond, to string) {
+		sb.WriteString("    - from:\n")
+		if from == "" {
+			sb.WriteString("        stream:\n          name: globalStream\n          at: start\n")
+		} else {
+			fmt.Fprintf(&sb, "        processor:\n          name: %s\n", from)
+			if cond != "" {
+				fmt.Fprintf(&sb, "          condition: %s\n", cond)
+			}
+		}
+		sb.WriteString("      to:\n")
+		if to == "" {
+			sb.WriteString("        stream:\n          name: globalStream\n          at: end\n")
+		} else {
+			fmt.Fprintf(&sb, "        processor:\n          name: %s\n", to)
+		}
+	}
+	name := func(i int) string { return fmt.Sprintf("lim%d", e.Chain[i]) }
+	conn("", "", name(0))
+	for i := range e.Chain {
+		if e.OnRefusal == "forward" {
+			conn(name(i), "above_limit", "")
+		} else {
+			conn(name(i), "above_limit", "gen429")
+		}
+		if i+1 < len(e.Chain) {
+			conn(name(i), "below_limit", name(i+1))
+		} else {
+			conn(name(i), "below_limit", "flt")
+		}
+	}
+	conn("flt", "hit", "gen200")
+	conn("flt", "miss", "")
+	sb.WriteString("  response:\n")
+	if e.OnRefusal != "forward" {
+		conn("gen429", "", "")
+	}
+	conn("gen200", "", "")
+	conn("", "", "")
+	return sb.String()
+}
+
 // referenced: quotas named by a Limiter of the user flow, and their ancestors
 // (for those the engine switches the system flow's QuotaProcessorInc off).
 func (e *EngCfg) referenced(q int) bool {
+	if e.Style == "chain" {
+		for _, l := range e.Chain {
+			if l == q || e.onChain(l, q) {
+				return true
+			}
+		}
+		return false
+	}
 	return e.onChain(e.Limiter, q) || (e.Style == "two" && e.onChain(e.Limiter2, q))
 }
 
 // Pev is one quota-relevant processor execution observed through the
 // processor-executed hook (or inferred: "finish").
 type Pev struct {
-	Kind  string `json:"kind"` // inc lim gen dec finish
+	Kind  string `json:"kind"` // inc lim gen dec finish touch (touch: a processor of a rate quota looked it up)
 	Q     int    `json:"quota"`
 	Apply bool   `json:"apply,omitempty"`
 	Below int    `json:"below"` // lim: 1 below_limit, 0 above_limit
@@ -145,6 +222,12 @@ func hookEvent(kind string, args ...string) {
 		if cond == "below_limit" {
 			b = 1
 		}
+		if evCfg.foreign(q) {
+			// the Limiter of a rate quota: GetQuota(q, id) is all it does to the
+			// concurrency side; its verdict is not a concurrency verdict
+			*evSink = append(*evSink, Pev{Kind: "touch", Q: q, Below: b})
+			return
+		}
 		*evSink = append(*evSink, Pev{Kind: "lim", Q: q, Below: b})
 	case strings.HasPrefix(key, "gen"):
 		if dir == publictypes.StreamTypeRequest.String() {
@@ -152,10 +235,15 @@ func hookEvent(kind string, args ...string) {
 		}
 	case strings.HasSuffix(key, "_QuotaProcessorInc"):
 		if q, ok := parseQ(strings.TrimSuffix(key, "_QuotaProcessorInc")); ok {
-			*evSink = append(*evSink, Pev{Kind: "inc", Q: q, Apply: !evCfg.referenced(q), Below: -1})
+			switch {
+			case !evCfg.foreign(q):
+				*evSink = append(*evSink, Pev{Kind: "inc", Q: q, Apply: !evCfg.referenced(q), Below: -1})
+			case !evCfg.referenced(q):
+				*evSink = append(*evSink, Pev{Kind: "touch", Q: q, Below: -1})
+			}
 		}
 	case strings.HasSuffix(key, "_QuotaProcessorDec"):
-		if q, ok := parseQ(strings.TrimSuffix(key, "_QuotaProcessorDec")); ok {
+		if q, ok := parseQ(strings.TrimSuffix(key, "_QuotaProcessorDec")); ok && !evCfg.foreign(q) {
 			*evSink = append(*evSink, Pev{Kind: "dec", Q: q, Below: -1})
 		}
 	}
@@ -200,6 +288,9 @@ func newEngExec(e *EngCfg) (*engExec, error) {
 		cancel()
 		return nil, err
 	}
+	evMu.Lock()
+	evCfg = e
+	evMu.Unlock()
 	x := &engExec{e: e, st: st, clk: clk, cancel: cancel, timers: len(e.Rows)}
 	for i, r := range e.Rows {
 		q, err := st.VerifC02Quota(qid(i))
@@ -223,17 +314,37 @@ func newEngExec(e *EngCfg) (*engExec, error) {
 
 func (x *engExec) close() { x.cancel() }
 
-func (x *engExec) url() string { return x.e.host(x.e.Limiter) + "/x" }
+func (x *engExec) url() string {
+	if x.e.Style == "chain" {
+		return x.e.host(0) + "/x"
+	}
+	return x.e.host(x.e.Limiter) + "/x"
+}
 
-// txn runs one ExecuteFlow call the way routing/messages_handler.go does.
-func (x *engExec) txn(r int, response bool) (trace []Pev, early bool, errText string) {
+// txn runs one ExecuteFlow call the way routing/messages_handler.go does, on a
+// stream with transaction id t<r> and sequence id t<seq>; ask = the request
+// carries the header that makes a "chain" flow answer it after admission. A
+// panic of the engine is reported as the call's error, the run goes on.
+func (x *engExec) txn(r, seq int, response, ask bool) (trace []Pev, early bool, errText string) {
 	trace = []Pev{}
 	evMu.Lock()
 	evSink = &trace
 	evMu.Unlock()
+	defer func() {
+		if p := recover(); p != nil {
+			evMu.Lock()
+			evSink = nil
+			evMu.Unlock()
+			errText = fmt.Sprintf("panic: %v", p)
+		}
+	}()
 	var err error
 	if !response {
-		api := reqStream(r, x.url())
+		var hdr map[string]string
+		if ask {
+			hdr = map[string]string{"x-mode": "early"}
+		}
+		api := reqStream(r, seq, x.url(), hdr)
 		acts := &stream_config.StreamActions{Request: &stream_config.RequestStream{}}
 		err = x.st.ExecuteFlow(api, acts)
 		for _, a := range acts.Request.Actions {
@@ -242,7 +353,7 @@ func (x *engExec) txn(r int, response bool) (trace []Pev, early bool, errText st
 			}
 		}
 	} else {
-		api := respStream(r, x.url())
+		api := respStream(r, seq, x.url())
 		acts := &stream_config.StreamActions{Response: &stream_config.ResponseStream{}}
 		err = x.st.ExecuteFlow(api, acts)
 	}
